@@ -28,7 +28,7 @@ theorem names_follow_their_entities (m o : ModuleM) (h : roundTripModule m = som
         (∀ p ∈ no.funcs, ∃ i, lastName n.funcs i = some p.2 ∧ assoc ρ i = some p.1) ∧
         (∀ (k : Nat) (e : String × String × Nat), m.exports[k]? = some e → e.2.1 = "f" →
           ∃ e' : String × String × Nat, o.exports[k]? = some e' ∧ assoc ρ e.2.2 = some e'.2.2) := by
-  obtain ⟨ρ, hex, _, hnames, _⟩ := (roundTrip_components m o h).funcRenaming
+  obtain ⟨ρ, hex, _, hnames, _, _⟩ := (roundTrip_components m o h).funcRenaming
   obtain ⟨n, hn, hmod, hf, ht, hm, hg, he, hd⟩ := hnames no hno
   refine ⟨n, hn, hmod, ?_, ?_, ?_, ?_, ?_, ρ, ?_, hex⟩
   · intro p hp; rw [ht] at hp; exact keepNames_sound _ p hp
@@ -53,7 +53,7 @@ theorem no_name_is_lost (m o : ModuleM) (h : roundTripModule m = some o) (no : N
         (∀ i j s, lastName n.funcs i = some s → assoc ρ i = some j → (j, s) ∈ no.funcs) ∧
         (∀ (k : Nat) (e : String × String × Nat), m.exports[k]? = some e → e.2.1 = "f" →
           ∃ e' : String × String × Nat, o.exports[k]? = some e' ∧ assoc ρ e.2.2 = some e'.2.2) := by
-  obtain ⟨ρ, hex, _, hnames, _⟩ := (roundTrip_components m o h).funcRenaming
+  obtain ⟨ρ, hex, _, hnames, _, _⟩ := (roundTrip_components m o h).funcRenaming
   obtain ⟨n, hn, _, hf, ht, hm, hg, he, hd⟩ := hnames no hno
   refine ⟨n, hn, ?_, ?_, ?_, ?_, ?_, ρ, ?_, hex⟩
   · intro i s hs; rw [ht]; exact keepNames_complete _ i s hs
